@@ -1618,7 +1618,28 @@ def rule_tag_tables_aligned(model: Model, rule_id: str = 'C12-R8') -> RuleResult
     r.analysed.add(init.qualname)
     me = init.params[0]
     tags_from_map = None
+    # local names for the same table (`tag_map = {}; self.tag_map = tag_map`)
+    aliases = {f'{me}.tag_map'}
     for x in ast.walk(init.node):
+        if isinstance(x, (ast.Assign, ast.AnnAssign)) and x.value is not None:
+            tgts = x.targets if isinstance(x, ast.Assign) else [x.target]
+            for tg in tgts:
+                if unparse(tg) == f'{me}.tag_map' and isinstance(x.value, ast.Name):
+                    aliases.add(x.value.id)
+                if isinstance(tg, ast.Name) and unparse(x.value) == f'{me}.tag_map':
+                    aliases.add(tg.id)
+    if len(aliases) > 1:
+        # analyse the function with the local name written out
+        class _Sub(ast.NodeTransformer):
+            def visit_Name(self, node: ast.Name) -> ast.AST:
+                if node.id in aliases:
+                    return ast.copy_location(ast.Attribute(value=ast.Name(id=me, ctx=ast.Load()), attr='tag_map', ctx=node.ctx), node)
+                return node
+        import copy as _copy
+        init_node = ast.fix_missing_locations(_Sub().visit(_copy.deepcopy(init.node)))
+    else:
+        init_node = init.node
+    for x in ast.walk(init_node):
         if isinstance(x, (ast.Assign, ast.AnnAssign)):
             tgts = x.targets if isinstance(x, ast.Assign) else [x.target]
             if any(unparse(tg) == f'{me}.tags' for tg in tgts) and x.value is not None:
@@ -1640,12 +1661,14 @@ def rule_tag_tables_aligned(model: Model, rule_id: str = 'C12-R8') -> RuleResult
         if not isinstance(g.node, ast.FunctionDef):
             continue
         gme = g.params[0] if g.params else 'self'
-        for x in walk_no_nested(g.node):
+        for x in walk_no_nested(init_node if g is init else g.node):
             if isinstance(x, (ast.Assign, ast.AnnAssign, ast.AugAssign)):
                 tgts = x.targets if isinstance(x, ast.Assign) else [x.target]
                 for tg in tgts:
                     if unparse(tg) == f'{gme}.tag_map':
                         v = getattr(x, 'value', None)
+                        if g is init and v is not None and unparse(v) == f'{gme}.tag_map':
+                            continue        # the alias binding itself
                         writes.append(unparse(x)[:80])
                         if isinstance(x, ast.AugAssign):
                             bad = (g, x)
